@@ -202,6 +202,19 @@ def check(prog, res, tier):
                 inner = gen.src
                 if gen.filtered or not isinstance(inner, IterV) or inner.filtered or inner.src is not ro:
                     fails.append(definite('records are filtered or do not come one-to-one from the reader'))
+                else:
+                    # data flow: written record == encode(decode(record read)), nothing in between
+                    w_el = it.resolve(gen.elem)
+                    o1 = getattr(w_el, 'origin', None)
+                    mid = it.resolve(o1[1]) if isinstance(o1, tuple) and len(o1) == 3 and o1[0] == 'encode' else None
+                    o2 = getattr(mid, 'origin', None)
+                    if not (isinstance(o1, tuple) and len(o1) == 3 and o1[0] == 'encode' and o1[2] is u['oe']):
+                        fails.append(definite(f'the record written is {w_el!r} ({o1 and o1[0]!r}), not the text encoded with the output encoding'))
+                    elif not (isinstance(o2, tuple) and len(o2) == 3 and o2[0] == 'decode' and o2[2] is u['ie']):
+                        fails.append(definite(f'the text that is encoded is {mid!r} ({(o2 and o2[0])!r} of the decoded record), not the '
+                                              f'record decoded with the input encoding: the conversion is no longer a pure transcoding'))
+                    elif getattr(it.resolve(o2[1]), 'kind', None) != 'elem':
+                        fails.append(definite(f'the value that is decoded is {o2[1]!r}, not the record read'))
             if wo not in u.get('closed', []):
                 fails.append(definite('the writer is not finalised'))
             return fails
